@@ -72,6 +72,12 @@ def directed():
                     {"op": "mod", "seid": 1, "ufars": [{"id": 1, "action": act, "ohc": {"teid": 400, "gnb": 1}}], "fail_ufar": 12},
                     {"op": "buffer", "seid": 1, "pdr": 1, "action": 4, "pkt": "dd03"},
                     {"op": "mod", "seid": 1, "ufars": [{"id": 1, "action": 2, "ohc": {"teid": 401, "gnb": 1}}]}])
+    # the PDR's first QER carries no QFI (a session-AMBR QER), the second does: the packets leave with the second's
+    out.append([{"op": "est", "cfars": [{"id": 1, "action": 4, "ohc": {"teid": 11, "gnb": 0}}], "cqers": [{"id": 5, "qfi": 0}, {"id": 6, "qfi": 9}],
+                 "cpdrs": [{"id": 1, "far": 1, "qers": [5, 6]}]},
+                {"op": "buffer", "seid": 1, "pdr": 1, "action": 4, "pkt": "ee01"},
+                {"op": "buffer", "seid": 1, "pdr": 1, "action": 4, "pkt": "ee02ff"},
+                {"op": "mod", "seid": 1, "ufars": [{"id": 1, "action": 2}]}])
     burst = [{"op": "est", "cfars": [{"id": 1, "action": 4, "ohc": {"teid": 5, "gnb": 0}}], "cqers": [], "cpdrs": [{"id": 1, "far": 1, "qers": []}]}]
     for n in (511, 515):
         out.append(burst + [{"op": "burst", "seid": 1, "pdr": 1, "action": 4, "pkt": "90", "count": n},
